@@ -77,3 +77,59 @@ pub fn differing_tables(a: &Dump, b: &Dump) -> Vec<String> {
   }
   tables.into_iter().collect()
 }
+
+/// Every row that differs: (table, key, value in a, value in b).
+pub fn differing_rows(a: &Dump, b: &Dump) -> Vec<(String, String, Option<String>, Option<String>)> {
+  // multimap tables repeat keys: compare (table, key, value) triples as sets
+  let sa: std::collections::BTreeSet<&(String, String, String)> = a.iter().collect();
+  let sb: std::collections::BTreeSet<&(String, String, String)> = b.iter().collect();
+  let mut out = Vec::new();
+  for r in sa.difference(&sb) {
+    out.push((r.0.clone(), r.1.clone(), Some(r.2.clone()), None));
+  }
+  for r in sb.difference(&sa) {
+    out.push((r.0.clone(), r.1.clone(), None, Some(r.2.clone())));
+  }
+  out
+}
+
+/// Parse the `{:?}` rendering of a byte array / slice (`[1, 2, 3]`).
+pub fn parse_debug_bytes(s: &str) -> Option<Vec<u8>> {
+  let inner = s.trim().strip_prefix('[')?.strip_suffix(']')?;
+  if inner.trim().is_empty() {
+    return Some(Vec::new());
+  }
+  inner.split(',').map(|x| x.trim().parse::<u8>().ok()).collect()
+}
+
+/// True when every differing row is a UTXO / address-index row of an outpoint
+/// whose txid occurs more than once in the chain (duplicate coinbase): the
+/// displaced-entry defect recorded for C01/C02, seen through another lens.
+pub fn only_displaced_duplicate_rows(a: &Dump, b: &Dump, dup_txids: &std::collections::BTreeSet<[u8; 32]>) -> bool {
+  let rows = differing_rows(a, b);
+  !rows.is_empty()
+    && rows.iter().all(|(table, key, va, vb)| {
+      let outpoint_bytes = match table.as_str() {
+        "OUTPOINT_TO_UTXO_ENTRY" => parse_debug_bytes(key),
+        "SCRIPT_PUBKEY_TO_OUTPOINT" => va.as_ref().or(vb.as_ref()).and_then(|v| parse_debug_bytes(v)),
+        _ => None,
+      };
+      match outpoint_bytes {
+        Some(bytes) if bytes.len() == 36 => dup_txids.contains(<&[u8; 32]>::try_from(&bytes[..32]).unwrap()),
+        _ => false,
+      }
+    })
+}
+
+pub fn duplicated_coinbase_txids(blocks: &[bitcoin::Block]) -> std::collections::BTreeSet<[u8; 32]> {
+  use bitcoin::hashes::Hash;
+  let mut seen = std::collections::BTreeSet::new();
+  let mut dup = std::collections::BTreeSet::new();
+  for b in blocks {
+    let id = b.txdata[0].compute_txid().to_byte_array();
+    if !seen.insert(id) {
+      dup.insert(id);
+    }
+  }
+  dup
+}
